@@ -331,7 +331,7 @@ HubMigrate(w, limit) ==
   ELSE LET n == Min(Len(w.legacy), IF limit = NoneInt THEN 1000 ELSE limit)
            RECURSIVE Move(_, _)
            Move(wt, i) == IF i > n THEN wt
-                          ELSE LET e == w.legacy[i] IN Move([wt EXCEPT ![e.u][e.i] = [b |-> e.amt, st |-> 0]], i + 1)
+                          ELSE LET e == w.legacy[i] IN Move([wt EXCEPT ![e.u][e.i].b = @ + e.amt], i + 1)      \* (F4: added, not replaced)
            rest == SubSeq(w.legacy, n + 1, Len(w.legacy))
        IN HOk([w EXCEPT !.wait = Move(@, 1), !.legacy = rest,
                         !.hubPar.paused = IF Len(rest) = 0 THEN FALSE ELSE @], <<>>)
